@@ -83,3 +83,24 @@ def install(w):
                                         "forall_int(k, mhas(spread_path_index, k) =="
                                         " (old(mhas(self.spread_path_index_by_name, k)) or k == mkey(fragment_name)))"]}},
                props={"C01"})
+
+    # ---- MaxIntrospectionDepthRule._check_depth: fragments are marked while they are on the current
+    # path and unmarked afterwards; measure (fragments not on the path, size of the node) -------------
+    MID = "graphql.validation.rules.max_introspection_depth_rule"
+    w.alias("MaxIntrospectionDepthRule", f"{MID}.MaxIntrospectionDepthRule")
+    w.shape("MaxIntrospectionDepthRule", _visited_fragments=("nameset", "mid_unvisited"),
+            # set to context.get_fragment by __init__ (not under contract): a lookup in the document's
+            # fragment table
+            _get_fragment=("name_lookup", "ref:FragmentDefinitionNode"), context="obj:ValidationContext")
+    w.contract(f"{MID}.MaxIntrospectionDepthRule._check_depth",
+               # called with fields, inline fragments, spreads and fragment definitions: the shape of a
+               # selection (name, selection_set) covers what the body reads
+               params={"node": "ref:SelectionNode", "depth": "int"}, returns="bool",
+               ensures=["ghost('mid_unvisited') == old(ghost('mid_unvisited'))",
+                        "forall_int(k, ns_has_key(self._visited_fragments, k) == old(ns_has_key(self._visited_fragments, k)))"],
+               raises=[], modifies=None, ghost_modifies=["mid_unvisited"],
+               decreases=["ghost('mid_unvisited')", "ast_size(node)"],
+               loops={1: {"invariant": [
+                   "ghost('mid_unvisited') == old(ghost('mid_unvisited'))",
+                   "forall_int(k, ns_has_key(self._visited_fragments, k) == old(ns_has_key(self._visited_fragments, k)))"]}},
+               props={"C01"})
